@@ -193,7 +193,9 @@ pub fn answer(tz: &TimeZone, q: u8, t: u8) -> String {
             let dt = datetime(t);
             format!("{:?}", tz.to_ambiguous_timestamp(dt).offset())
         }
-        5 => match tz.following(ts).next() {
+        // The items of the transition iterators borrow from the zone for as
+        // long as the *handle* lives, not the iterator: keep them past it.
+        5 => match { let first = tz.following(ts).next(); first } {
             None => "None".to_string(),
             Some(tr) => format!(
                 "{}|{}|{}|{:?}",
@@ -203,7 +205,7 @@ pub fn answer(tz: &TimeZone, q: u8, t: u8) -> String {
                 tr.dst()
             ),
         },
-        6 => match tz.preceding(ts).next() {
+        6 => match { let first = tz.preceding(ts).next(); first } {
             None => "None".to_string(),
             Some(tr) => format!(
                 "{}|{}|{}|{:?}",
@@ -220,18 +222,22 @@ pub fn answer(tz: &TimeZone, q: u8, t: u8) -> String {
             Ok(ts) => format!("Ok({})", ts.as_second()),
             Err(_) => "Err".to_string(),
         },
-        11 => tz
-            .following(ts)
-            .take(3)
-            .map(|tr| format!("{}/{}/{}", tr.timestamp().as_second(), tr.offset().seconds(), tr.abbreviation()))
-            .collect::<Vec<_>>()
-            .join(","),
-        _ => tz
-            .preceding(ts)
-            .take(3)
-            .map(|tr| format!("{}/{}/{}", tr.timestamp().as_second(), tr.offset().seconds(), tr.abbreviation()))
-            .collect::<Vec<_>>()
-            .join(","),
+        11 => {
+            let items: Vec<_> = tz.following(ts).take(3).collect();
+            items
+                .iter()
+                .map(|tr| format!("{}/{}/{}", tr.timestamp().as_second(), tr.offset().seconds(), tr.abbreviation()))
+                .collect::<Vec<_>>()
+                .join(",")
+        }
+        _ => {
+            let items: Vec<_> = tz.preceding(ts).take(3).collect();
+            items
+                .iter()
+                .map(|tr| format!("{}/{}/{}", tr.timestamp().as_second(), tr.offset().seconds(), tr.abbreviation()))
+                .collect::<Vec<_>>()
+                .join(",")
+        }
     }
 }
 
